@@ -26,7 +26,7 @@ RECURSIVE AddAll(_, _, _)
 AddAll(queue, ann, have) ==
     IF ann = <<>> THEN queue
     ELSE LET a == Head(ann)
-             dup == \E k \in DOMAIN queue : queue[k].hash = a[2] /\ queue[k].id = a[1]
+             dup == \E k \in DOMAIN queue : queue[k].hash = a[2]   \* a block is its hash; the id is a claim
          IN IF a[2] \in have \/ dup THEN AddAll(queue, Tail(ann), have)
             ELSE AddAll(Append(queue, Entry(a[2], a[1])), Tail(ann), have)
 
@@ -76,7 +76,7 @@ InFlightBounded(queue) == Fetching(queue) <= Batch
 NoDuplicateInFlight(queue) ==
     \A a, b \in DOMAIN queue : (a # b /\ queue[a].st = "F" /\ queue[b].st = "F") => queue[a].hash # queue[b].hash
 NoDuplicateEntry(queue) ==
-    \A a, b \in DOMAIN queue : a # b => ~(queue[a].hash = queue[b].hash /\ queue[a].id = queue[b].id)
+    \A a, b \in DOMAIN queue : a # b => queue[a].hash # queue[b].hash
 RetriesBounded(queue) == \A k \in DOMAIN queue : queue[k].rc <= MaxRetries + 1
 
 (* a round's selection is in non-decreasing height order and never skips a queued entry *)
